@@ -418,7 +418,7 @@ func (p *dstPlugin) Run(ctx context.Context, stream pconnector.DestinationRunStr
 			acks := make([]pconnector.DestinationRunResponseAck, 0, len(req.Records))
 			for _, r := range req.Records {
 				src, k := ParsePos(r.Position)
-				p.w.Log(Ev{K: p.kind + "write", C: p.st.id, S: src, N: k, A: r.Metadata["verif.p1"]})
+				p.w.Log(Ev{K: p.kind + "write", C: p.st.id, S: src, N: k, A: r.Metadata["verif.p1"], X: r.Metadata["verif.chain"]})
 			}
 			for _, r := range req.Records {
 				src, k := ParsePos(r.Position)
@@ -570,6 +570,7 @@ func (p *procPlugin) Process(_ context.Context, recs []opencdc.Record) []sdk.Pro
 			r2.Metadata = opencdc.Metadata{}
 		}
 		r2.Metadata["verif."+p.id] = fmt.Sprint(p.inst) // which instance handled the record
+		r2.Metadata["verif.chain"] += fmt.Sprintf("%s#%d;", p.id, p.inst)
 		res[i] = sdk.SingleRecord(r2)
 	}
 	return res
